@@ -296,7 +296,7 @@ func registerFS(ex *Executor) {
 			}
 			fs.NextIno++
 			fs.NextOrd++
-			fs.Inodes[fs.NextIno] = &FSInode{ID: fs.NextIno, Content: smt.StrC(""), Mode: args[2].(*smt.Term)}
+			fs.Inodes[fs.NextIno] = &FSInode{ID: fs.NextIno, Content: smt.StrC(""), Mode: umasked(args[2].(*smt.Term))}
 			fs.Entries = append(fs.Entries, FSEntry{Name: n, Ino: fs.NextIno, Order: fs.NextOrd})
 			i = len(fs.Entries) - 1
 			st.note("fs: create %s", n)
@@ -555,7 +555,7 @@ func registerFS(ex *Executor) {
 		if i < 0 {
 			fs.NextIno++
 			fs.NextOrd++
-			fs.Inodes[fs.NextIno] = &FSInode{ID: fs.NextIno, Content: data, Mode: args[2].(*smt.Term)}
+			fs.Inodes[fs.NextIno] = &FSInode{ID: fs.NextIno, Content: data, Mode: umasked(args[2].(*smt.Term))}
 			fs.Entries = append(fs.Entries, FSEntry{Name: n, Ino: fs.NextIno, Order: fs.NextOrd})
 		} else {
 			fs.Inodes[fs.Entries[i].Ino].Content = data
@@ -665,4 +665,17 @@ func registerFS(ex *Executor) {
 		}
 		return total, cNext
 	}
+}
+
+// umasked: the permission bits a newly created file really gets: the requested ones minus the process umask. The model
+// fixes the usual umask 022 (A-umask; the native harness sets it as well): group-write (020) and other-write (002) are
+// cleared. Only an explicit Chmod gives a file exactly the requested mode.
+func umasked(perm *smt.Term) *smt.Term {
+	if perm.IsConst() {
+		if v, ok := perm.Int64(); ok {
+			return smt.IntC(v &^ 0o22)
+		}
+	}
+	bit := func(w int64) *smt.Term { return smt.Mod(smt.Div(perm, smt.IntC(w)), smt.IntC(2)) }
+	return smt.Sub(smt.Sub(perm, smt.Mul(smt.IntC(16), bit(16))), smt.Mul(smt.IntC(2), bit(2)))
 }
